@@ -405,6 +405,22 @@ static void dump(std::ostream& out) {
         out << "\n";
     }
     out << "D cr=" << g_dyn_calls[0] << " cp=" << g_dyn_calls[1] << " mv=" << g_dyn_calls[2] << " mc=" << g_dyn_calls[3] << " ds=" << g_dyn_calls[4] << "\n";
+    // P: the checked lookups of an archetype answer null beyond its population (one past the end, and far past it) and non-null for
+    // its last member: counted over every archetype and component column
+    {
+        size_t probes = 0, past_nonnull = 0, last_null = 0;
+        for (auto& a : em.archetypes_) {
+            const uint32_t n = a->size();
+            for (uint32_t ci = 0; ci < a->mask_.items().size(); ++ci) {
+                const auto cidx = ComponentIndex::make(ci);
+                ++probes;
+                if (a->getConstComponent<FunctionSafety::kSafe>(cidx, ArchetypeEntityIndex::make(n)) != nullptr) ++past_nonnull;
+                if (a->getConstComponent<FunctionSafety::kSafe>(cidx, ArchetypeEntityIndex::make(n + 1000u)) != nullptr) ++past_nonnull;
+                if (n > 0 && a->getConstComponent<FunctionSafety::kSafe>(cidx, ArchetypeEntityIndex::make(n - 1u)) == nullptr) ++last_null;
+            }
+        }
+        if (probes) out << "P probes=" << probes << " past_nonnull=" << past_nonnull << " last_null=" << last_null << "\n";
+    }
     // Y: every parked temporary lies inside one block of its command buffer, aligned for its type, disjoint from the others
     {
         size_t n = 0, oob = 0, mis = 0, ovl = 0;
@@ -658,6 +674,35 @@ static std::string run_script(const std::vector<std::string>& lines, std::ostrea
             }
             R << "pcreate workers=" << n << " created=" << total << " dup=" << dup << " invalid=" << invalid << " miscount=" << miscount;
         }
+        else if (op == "pregister") {
+            // pregister <rounds>: in each round every worker registers, at the same time, one and the same never-seen component
+            // description (registration on first use, by name, as the C interface and run-time described jobs do): all of them
+            // must be told the same id, and a later lookup must agree
+            int rounds; in >> rounds;
+            auto& disp = d.world->dispatcher();
+            const int n = int(disp.threadCount());
+            long split = 0, total = 0;
+            for (int r = 0; r < rounds; ++r) {
+                ComponentInfo info;
+                info.name = "verif_race_" + std::to_string(reinterpret_cast<uintptr_t>(&d) % 100000) + "_" + std::to_string(r);
+                info.size = 8; info.align = 8; info.type_id_hash_code = std::hash<std::string>{}(info.name);
+                std::vector<uint32_t> got(static_cast<size_t>(n), 0u);
+                std::atomic<int> started{0};
+                for (int i = 0; i < n; ++i) {
+                    disp.addParallelTask([&, i](ThreadId) {
+                        started++;
+                        while (started.load() < n) { }
+                        got[static_cast<size_t>(i)] = ComponentFactory::instance().componentId(info).toInt();
+                    });
+                }
+                disp.waitForParallelFinish();
+                const uint32_t again = ComponentFactory::instance().componentId(info).toInt();
+                bool same = true;
+                for (auto g : got) { ++total; if (g != again) same = false; }
+                if (!same) ++split;
+            }
+            R << "pregister workers=" << n << " registrations=" << total << " split=" << split;
+        }
         else if (op == "pcreatenew") {
             // pcreatenew <rounds> <per>: in each round every worker creates, at the same time and under one lock, <per> entities with
             // a component set for which no archetype exists yet (first use of that combination from inside tasks). Afterwards exactly
@@ -824,6 +869,18 @@ static std::string run_script(const std::vector<std::string>& lines, std::ostrea
             { bool first = true; for (auto id : job->version_check_mask.items()) { R << (first ? "" : ",") << id.toInt(); first = false; } if (first) R << "-"; }
             if (job->skip_odd) R << " xodd=1";
             d.jobs.push_back(std::move(job));
+        }
+        else if (op == "jobedit") { // jobedit <j> <reqs: pal:flags ...>: the SAME job object described anew between runs
+            size_t j; in >> j; auto& job = *d.jobs[j];
+            job.component_requests.clear();
+            std::string tok;
+            while (in >> tok) { auto c = tok.find(':'); int p = std::stoi(tok.substr(0, c)); int fl = std::stoi(tok.substr(c + 1)); do_register(p, 0);
+                NonTemplateJob::ComponentRequest r; r.id = d.cid[p]; r.is_const = fl & 1; r.is_required = !(fl & 2); job.component_requests.push_back(r); }
+            R << j << " req=";
+            for (size_t i = 0; i < job.component_requests.size(); ++i) { auto& r = job.component_requests[i];
+                R << (i ? "," : "") << r.id.toInt() << ":" << ((r.is_const ? 1 : 0) | (r.is_required ? 0 : 2)); }
+            R << " chk=";
+            { bool first = true; for (auto id : job.version_check_mask.items()) { R << (first ? "" : ",") << id.toInt(); first = false; } if (first) R << "-"; }
         }
         else if (op == "runjob") { // runjob <j> <mode 0 current thread, 1 parallel> [forced task count]
             size_t j; int mode; uint32_t tasks = 0; in >> j >> mode; in >> tasks;
